@@ -61,7 +61,8 @@ def apply_churn(spec, ops):
     for op in ops:
         t = op["t"]
         if t == "module":
-            if op["m"] in spec["modules"] and not any(c["module"] == op["m"] and any(op["m"] != x["module"] and c["name"] in x["bases"] for x in spec["classes"]) for c in spec["classes"]):
+            gone = {op["m"]} | P.broken_modules(dict(spec, removed_modules=list(spec.get("removed_modules") or ()) + [op["m"]]))
+            if op["m"] in spec["modules"] and not any(c["module"] in gone and any(x["module"] not in gone and c["name"] in x["bases"] for x in spec["classes"]) for c in spec["classes"]):
                 spec.setdefault("removed_modules", [])
                 if op["m"] not in spec["removed_modules"] and len(spec["removed_modules"]) < len(spec["modules"]) - 0:
                     spec["removed_modules"].append(op["m"])
@@ -95,7 +96,7 @@ def apply_churn(spec, ops):
 def live_spec(spec):
     """Spec restricted to what can still be called (for schedule generation)."""
     dead_cls = {c["name"] for c in spec["classes"] if c.get("churn")}
-    rm = set(spec.get("removed_modules") or ())
+    rm = set(spec.get("removed_modules") or ()) | P.broken_modules(spec)
     s = dict(spec)
     s["classes"] = [c for c in spec["classes"] if c["name"] not in dead_cls and c["module"] not in rm and c.get("outer") not in dead_cls]
     s["funcs"] = [f for f in spec["funcs"] if not f.get("churn") and f["module"] not in rm and f.get("cls") not in dead_cls
@@ -126,6 +127,8 @@ def gen_churn(rng, spec):
         r = rng.random()
         if r < 0.12 and len(spec["modules"]) > 1:
             ops.append({"t": "module", "m": rng.choice(spec["modules"])})
+        elif r < 0.3 and spec.get("imports"):
+            ops.append({"t": "module", "m": rng.choice(spec["imports"])[1]})
         elif r < 0.75 and ls["funcs"]:
             f = rng.choice(ls["funcs"])
             ops.append({"t": "func", "fid": f["fid"], "k": rng.choice(METHOD_CHURN if f.get("cls") else FUNC_CHURN)})
@@ -142,6 +145,17 @@ def gen(rng, index, tier):
         kn[key] = pkn[key]
     kn["k"] = rng.choice([0, 0, 2, 10])
     kn["genobjects"] = False
+    if len(spec["modules"]) > 1 and rng.random() < 0.35:
+        # one or two plain `import pkg.sibling` dependencies (importer later in load order than the imported module)
+        spec = dict(spec)
+        edges = []
+        for _ in range(rng.choice([1, 1, 2])):
+            j = rng.randrange(1, len(spec["modules"]))
+            e = [spec["modules"][j], spec["modules"][rng.randrange(j)]]
+            if e not in edges:
+                edges.append(e)
+        spec["imports"] = edges
+        spec["pkg"] = spec["pkg"] + "i" + R.digest(edges)[:6]
     phases = []
     cur = spec
     day = 0
@@ -158,6 +172,7 @@ def gen(rng, index, tier):
     mods = spec["modules"]
     target_mod = rng.choice(mods)
     removed = [op["m"] for ph in phases for op in ph["churn"] if op["t"] == "module"]
+    removed = removed + sorted(P.broken_modules(cur))
     force_apply = False
     if removed and rng.random() < 0.6:
         # faults placed where they matter: query the module whose code is gone
@@ -195,7 +210,8 @@ def class_path(spec, cname):
 def model(spec):
     """What resolves after the churn: sets of (module, qualname) for functions and for types."""
     pkg = spec["pkg"]
-    rm = set(spec.get("removed_modules") or ())
+    # a module that still exists but imports a removed sibling cannot be imported: everything in it is as gone as the sibling
+    rm = set(spec.get("removed_modules") or ()) | P.broken_modules(spec)
     funcs, types_ok = set(), set()
     dead_cls = set()
     for c in spec["classes"]:
@@ -399,6 +415,8 @@ def execute(plan):
             probes["query returned stale rows"] += 1
         if stale and good:
             probes["stale and valid rows mixed"] += 1
+        if stale and P.broken_modules(spec):
+            probes["stale rows while a module that still exists imports a removed sibling"] += 1
         if (exc2 is not None or (rc2 not in (0, None))) and good:
             probes["twin run failed too (not this property)"] += 1
         else:
